@@ -295,6 +295,13 @@ def renameClause (listening : Bool) (c : String) : String :=
   else if c == "frame" then "copy_independent_with_listeners"
   else c ++ "_with_listeners"
 
+def lcheck (op : Op) (o : Out) (b a : State) : Option String :=
+  if !clauseNames NREG b op a then some "names_unique"
+  else if !clauseOk NREG b a then some "list_param_inv"
+  else if !clauseAtomic NREG b op o a then some "bulk_atomic"
+  else if !clauseFrame NREG b op a then some "frame"
+  else none
+
 def step (s : St) (opToks : List String) (impl : Option (List String)) : St × String × String :=
   let parsed : Option (Option XOp × Option LOp) :=
     match opToks with
@@ -330,9 +337,18 @@ def step (s : St) (opToks : List String) (impl : Option (List String)) : St × S
               match xop with
               | none => if unchanged NREG s.impl a then "ok" else "FAIL:listen_changes_nothing"
               | some op =>
-                match xcheckStep NREG s.impl op out fired a with
+                let listening := !mir'.isEmpty
+                let r :=
+                  match listening, op, out with
+                  -- with listeners, a value write legitimately reaches the listeners' targets inside the
+                  -- written list: only names / constraints / atomicity / frame are judged, not the
+                  -- listener-free exactness clauses ("parameters not named are never touched", …)
+                  | true, .base (.setValue k n v), .base o => lcheck (.setValue k n v) o s.impl a
+                  | true, .base (.setValues k j), .base o => lcheck (.setValues k j) o s.impl a
+                  | _, _, _ => xcheckStep NREG s.impl op out fired a
+                match r with
                 | none => "ok"
-                | some c => "FAIL:" ++ renameClause (!mir'.isEmpty) c
+                | some c => "FAIL:" ++ renameClause listening c
             ({ m := m', ren := ren', impl := a, implOk := true, mirrors := mir' }, line, verdict)
 
 def machine : Machine St := { init := fun _ => {}, step := step }
